@@ -12,31 +12,26 @@ _PRIMS = {
 
 def _prim_spec(n, val):
     return f"""    ensures
-        ({{ let b = old(self).rest();
-           &&& r is Ok <==> b.len() >= {n}
-           &&& r is Ok ==> r->Ok_0 == {val} && final(self).rest() == b.skip({n})
-        }}),"""
+        c07(r is Ok <==> old(self).rest().len() >= {n}),
+        c04(r is Ok ==> ({{ let b = old(self).rest(); r->Ok_0 == {val} }})),
+        c06(r is Ok ==> final(self).rest() == old(self).rest().skip({n})),"""
 
 
 _BYTES_SPEC = """    ensures
-        ({ let b = old(self).rest();
-           &&& r is Ok <==> b.len() >= len
-           &&& r is Ok ==> RESULT == VALUE && final(self).rest() == b.skip(len as int)
-        }),"""
+        c07(r is Ok <==> old(self).rest().len() >= len),
+        c04(r is Ok ==> ({ let b = old(self).rest(); RESULT == VALUE })),
+        c06(r is Ok ==> final(self).rest() == old(self).rest().skip(len as int)),"""
 
 _LEN_SPEC = """    ensures
-        ({ let b = old(self).rest();
-           let ok = b.len() >= 2 && b.len() >= 2 + be16(b) as int;
-           &&& r is Ok <==> ok
-           &&& r is Ok ==> RESULT == VALUE && final(self).rest() == b.skip(2).skip(be16(b) as int)
-        }),"""
+        c07(r is Ok <==> ({ let b = old(self).rest(); b.len() >= 2 && b.len() >= 2 + be16(b) as int })),
+        c04(r is Ok ==> ({ let b = old(self).rest(); RESULT == VALUE })),
+        c06(r is Ok ==> ({ let b = old(self).rest(); final(self).rest() == b.skip(2).skip(be16(b) as int) })),"""
 
 _HEADER_SPEC = """    ensures
-        ({ let b = old(self).rest();
-           &&& r is Ok <==> b.len() >= 8
-           &&& r is Ok ==> (r->Ok_0).version.0 == be16(b) && (r->Ok_0).operation_or_status == be16(b.skip(2))
-                 && (r->Ok_0).request_id == be32(b.skip(4)) && final(self).rest() == b.skip(8)
-        }),"""
+        c07(r is Ok <==> old(self).rest().len() >= 8),
+        c04(r is Ok ==> ({ let b = old(self).rest(); (r->Ok_0).version.0 == be16(b) && (r->Ok_0).operation_or_status == be16(b.skip(2))
+                 && (r->Ok_0).request_id == be32(b.skip(4)) })),
+        c06(r is Ok ==> final(self).rest() =~= old(self).rest().skip(8)),"""
 
 
 def _reader_ops(ty):
@@ -51,7 +46,7 @@ def _reader_ops(ty):
                 'spec': _BYTES_SPEC.replace('RESULT', 'buf_seq(&r->Ok_0)').replace('VALUE', 'b.take(len as int)')})
     ops.append({'op': 'fn', 'path': f'{ty}::read_string', 'ret': 'r',
                 'spec': _BYTES_SPEC.replace('RESULT', '(r->Ok_0)@').replace('VALUE', 'lossy(b.take(len as int))'),
-                'closures': {0: {'expect_params': '|b|', 'types': {'b': 'Bytes'}, 'ret': 's: String',
+                'closures': {0: {'expect_params': '|b|', 'optional': True, 'types': {'b': 'Bytes'}, 'ret': 's: String',
                                  'spec': '    ensures s@ == lossy(buf_seq(&b))'}}})
     ops.append({'op': 'fn', 'path': f'{ty}::read_name', 'ret': 'r',
                 'spec': _LEN_SPEC.replace('RESULT', '(r->Ok_0)@').replace('VALUE', 'lossy(b.skip(2).take(be16(b) as int))')})
